@@ -172,6 +172,34 @@ def directed(rng, tier):
     items.append({"id": "ifloop", "module": m,
                   "script": [INST] + [{"op": "call", "inst": 1, "export": "t", "args": [arg("i32", a), arg("i32", b)]}
                                       for a in (0, 1, 2, 5, 0xFF, 0x80000000) for b in (0, 7)]})
+    # (y) every activation has its own zeroed locals: self calls in tail position (last instruction, before `return`, inside an
+    #     `if`), the callee reads a local the caller has written
+    for shape in ("last", "return", "ifarm"):
+        tail = {"last": [["local.get", 0], ["i32.const", b32(1)], ["i32.sub"], ["call", 0]],
+                "return": [["local.get", 0], ["i32.const", b32(1)], ["i32.sub"], ["call", 0], ["return"]],
+                "ifarm": [["local.get", 0], ["i32.const", b32(1)], ["i32.sub"], ["call", 0]]}[shape]
+        setl = [["i32.const", b32(40)], ["local.get", 0], ["i32.add"], ["local.set", 1], ["i64.const", b64(1000)], ["local.set", 2]]
+        readl = [["local.get", 1], ["local.get", 2], ["i32.wrap_i64"], ["i32.add"]]
+        if shape == "ifarm":
+            body = [["local.get", 0], ["i32.eqz"], ["if", "i32"]] + readl + [["else"]] + setl + tail + [["end"], ["end"]]
+        else:
+            body = [["local.get", 0], ["i32.eqz"], ["if", ""]] + readl + [["return"], ["end"]] + setl + tail + [["end"]]
+        m = {"types": [{"p": ["i32"], "r": ["i32"]}], "funcs": [{"type": 0, "locals": [["i32", 1], ["i64", 1]], "body": body}],
+             "exports": [{"name": "t", "kind": "func", "idx": 0}]}
+        items.append({"id": "tail_%s" % shape, "module": m, "script": [INST] + [{"op": "call", "inst": 1, "export": "t", "args": [arg("i32", n)]} for n in (0, 1, 2, 5)]})
+    # (x) br_table whose targets were entered at different operand-stack heights (operands pushed between the blocks),
+    #     incl. the function label; every target, value-carrying
+    for nt in (2, 3, 5):
+        body = []
+        for d in range(nt):
+            body += [["block", "i32"], ["i32.const", b32(100 * (d + 1))]]          # one more operand below every inner block
+        body += [["i32.const", b32(7777)], ["local.get", 0], ["br_table", list(range(nt)), nt], ["end"]]
+        for d in range(nt - 1):
+            # back in the enclosing block: its own operand lies below the inner block's result: combine, then end it
+            body += [["i32.add"], ["end"]]
+        body += [["end"]]
+        m = {"types": [{"p": ["i32"], "r": ["i32"]}], "funcs": [{"type": 0, "locals": [], "body": body}], "exports": [{"name": "t", "kind": "func", "idx": 0}]}
+        items.append({"id": "brth%d" % nt, "module": m, "script": [INST] + [{"op": "call", "inst": 1, "export": "t", "args": [arg("i32", n)]} for n in range(nt + 2)]})
     # (z) declared locals start at zero: groups of several locals of every type, each read before any write, after the
     #     C stack has been dirtied by other calls; the pattern-initialising build makes a missing initialiser visible
     groups = [["i32", 3], ["i64", 2], ["f32", 2], ["f64", 3], ["i32", 1], ["i64", 4]]
